@@ -175,56 +175,88 @@ Lemma strip_survivor : exists s, code_free (strip s) = false.
 Proof. exists [sect1; sect2; sect1; sect2; 97; 97; 98]. vm_compute. reflexivity. Qed.
 
 (* ---------- fmt.Fprintf on the %s / %% fragment ---------- *)
-Lemma sprintf_lit s : forall f args, forallb (fun c => negb (c =? 37)) s = true ->
-  sprintf (s ++ f) args = rbind (sprintf f args) (fun o => ROk (s ++ o)).
+Lemma sprintf_lit all re s : forall f k, forallb (fun c => negb (c =? 37)) s = true ->
+  sprintf_go all (s ++ f) k re = rbind (sprintf_go all f k re) (fun o => ROk (s ++ o)).
 Proof.
-  induction s as [|c s IH]; intros f args H.
-  - cbn [app]. destruct (sprintf f args); reflexivity.
+  induction s as [|c s IH]; intros f k H.
+  - cbn [app]. destruct (sprintf_go all f k re); reflexivity.
   - cbn [forallb] in H. apply andb_true_iff in H. destruct H as [H1 H2].
-    apply negb_true_iff in H1. cbn [app sprintf]. rewrite H1, IH by exact H2.
-    destruct (sprintf f args); reflexivity.
+    apply negb_true_iff in H1. cbn [app sprintf_go]. rewrite H1, IH by exact H2.
+    destruct (sprintf_go all f k re); reflexivity.
 Qed.
-Lemma sprintf_arg f a rest :
-  sprintf (37 :: 115 :: f) (a :: rest) = rbind (sprintf f rest) (fun o => ROk (snd a ++ o)).
-Proof. reflexivity. Qed.
-Lemma sprintf_pct f args :
-  sprintf (37 :: 37 :: f) args = rbind (sprintf f args) (fun o => ROk (37 :: o)).
+Lemma sprintf_arg all re f k a : nth_error all k = Some a ->
+  sprintf_go all (37 :: 115 :: f) k re = rbind (sprintf_go all f (S k) re) (fun o => ROk (snd a ++ o)).
+Proof.
+  intros H. cbn [sprintf_go]. change (37 =? 37) with true. change (115 =? 37) with false.
+  change ((115 =? 115) || (115 =? 100)) with true. cbv iota. rewrite H.
+  unfold verb_out. change (115 =? 115) with true. cbv iota. reflexivity.
+Qed.
+Lemma sprintf_pct all re f k :
+  sprintf_go all (37 :: 37 :: f) k re = rbind (sprintf_go all f k re) (fun o => ROk (37 :: o)).
 Proof. reflexivity. Qed.
 
-Lemma sprintf_subst ps : forall args : list farg, lit_clean ps = true ->
-  count_args ps = length args -> sprintf (render_fmt ps) args = ROk (subst ps (map snd args)).
+Lemma skipn_nth {A} (l : list A) : forall k a, nth_error l k = Some a -> skipn k l = a :: skipn (S k) l.
 Proof.
-  induction ps as [|p ps IH]; intros args Hc Hn.
-  - destruct args; [reflexivity | discriminate].
+  induction l as [|x l IH]; intros [|k] a H; cbn in H; try discriminate.
+  - injection H as <-. reflexivity.
+  - cbn [skipn]. rewrite (IH k a H). reflexivity.
+Qed.
+Lemma sprintf_go_subst ps : forall (all : list farg) k, lit_clean ps = true ->
+  (count_args ps + k = length all)%nat ->
+  sprintf_go all (render_fmt ps) k false = ROk (subst ps (map snd (skipn k all))).
+Proof.
+  induction ps as [|p ps IH]; intros all k Hc Hn.
+  - cbn [count_args Nat.add] in Hn. subst k. cbn [render_fmt sprintf_go subst]. unfold end_tail.
+    rewrite skipn_all. reflexivity.
   - unfold lit_clean in Hc. cbn [forallb] in Hc. apply andb_true_iff in Hc. destruct Hc as [Hp Hc].
     destruct p as [s| |].
     + cbn [render_fmt subst count_args] in *. rewrite sprintf_lit by exact Hp.
-      rewrite (IH args Hc Hn). reflexivity.
-    + cbn [render_fmt subst count_args] in *. destruct args as [|a rest]; [discriminate|].
-      rewrite sprintf_arg. cbn [length] in Hn. rewrite (IH rest Hc ltac:(lia)). reflexivity.
+      rewrite (IH all k Hc Hn). reflexivity.
+    + cbn [render_fmt subst count_args] in *.
+      destruct (nth_error all k) as [a|] eqn:E.
+      2:{ apply nth_error_None in E. lia. }
+      rewrite (sprintf_arg all false _ k a E). rewrite (IH all (S k) Hc ltac:(lia)).
+      rewrite (skipn_nth all k a E). reflexivity.
     + cbn [render_fmt subst count_args] in *. rewrite sprintf_pct.
-      rewrite (IH args Hc Hn). reflexivity.
+      rewrite (IH all k Hc Hn). reflexivity.
+Qed.
+Lemma sprintf_subst ps : forall args : list farg, lit_clean ps = true ->
+  count_args ps = length args -> sprintf (render_fmt ps) args = ROk (subst ps (map snd args)).
+Proof.
+  intros args Hc Hn. unfold sprintf. rewrite (sprintf_go_subst ps args 0%nat Hc ltac:(lia)). reflexivity.
 Qed.
 
 (* ---------- rendering never panics ---------- *)
 Lemma rbind_nc r f : r <> RCrash -> (forall s, f s <> RCrash) -> rbind r f <> RCrash.
 Proof. destruct r; cbn; auto; congruence. Qed.
 
-Lemma sprintf_nc_len n : forall f args, (length f <= n)%nat -> sprintf f args <> RCrash.
+Lemma verb_out_nc v a : verb_out v a <> RCrash.
+Proof. unfold verb_out. destruct (v =? 115); [discriminate|]. destruct (fst a); discriminate. Qed.
+Lemma sprintf_nc_len all n : forall f k re, (length f <= n)%nat -> sprintf_go all f k re <> RCrash.
 Proof.
-  induction n as [|n IH]; intros f args Hl.
+  induction n as [|n IH]; intros f k re Hl.
   - destruct f; [cbn; discriminate | cbn in Hl; lia].
-  - destruct f as [|c r]; [cbn; discriminate|]. cbn [sprintf].
+  - destruct f as [|c r]; [cbn; discriminate|]. cbn [sprintf_go].
     destruct (c =? 37).
     + destruct r as [|d r2]; [discriminate|].
       destruct (d =? 37).
       * apply rbind_nc; [apply IH; cbn in Hl; lia | discriminate].
-      * destruct (d =? 115); [|discriminate].
-        destruct args; (apply rbind_nc; [apply IH; cbn in Hl; lia | discriminate]).
+      * destruct ((d =? 115) || (d =? 100)).
+        -- destruct (nth_error all k).
+           ++ apply rbind_nc; [apply verb_out_nc|]. intros x.
+              apply rbind_nc; [apply IH; cbn in Hl; lia | discriminate].
+           ++ apply rbind_nc; [apply IH; cbn in Hl; lia | discriminate].
+        -- destruct (d =? 91); [|discriminate].
+           destruct r2 as [|n0 [|rb [|v r3]]]; try discriminate.
+           destruct ((49 <=? n0) && (n0 <=? 57) && (rb =? 93) && ((v =? 115) || (v =? 100))); [|discriminate].
+           destruct (nth_error all (N.to_nat (n0 - 49))).
+           ++ apply rbind_nc; [apply verb_out_nc|]. intros x.
+              apply rbind_nc; [apply IH; cbn in Hl; lia | discriminate].
+           ++ apply rbind_nc; [apply IH; cbn in Hl; lia | discriminate].
     + apply rbind_nc; [apply IH; cbn in Hl; lia | discriminate].
 Qed.
 Lemma sprintf_nc f args : sprintf f args <> RCrash.
-Proof. apply (sprintf_nc_len (length f)). lia. Qed.
+Proof. unfold sprintf. apply (sprintf_nc_len args (length f)). lia. Qed.
 
 Lemma rconcat_nc l : Forall (fun r => r <> RCrash) l -> rconcat l <> RCrash.
 Proof.
